@@ -1,13 +1,280 @@
-import GS.Model.Allocator
+import GSProofs.Lemmas.AllocatorReach
 /-!
 # C13 — Allocator never exceeds its limits and accounts memory exactly
-Property theorems only (helper lemmas live in `GSProofs/Lemmas/`).
+
+Property theorems only (helper lemmas live in `GSProofs/Lemmas/Allocator*.lean`).
+
+Setting.  `GS.Alloc` (lean/GS/Model/Allocator.lean) mirrors `/repo/allocator/allocator.go`.
+All theorems quantify over
+* every configuration `mt mp < 2^64` (`W = 2^64`; the Go fields are `uint64`),
+* every history `ops : List Op` (any length, any peers, any amounts, any tickets) — phrased through
+  `Reachable pick mt mp s  :=  ∃ ops, s = (run pick (init mt mp) ops).1`, so a statement about all
+  reachable states is a statement about the state after *every prefix* of every history,
+* every `pick : Pick` that is `Admissible`: the only thing assumed of the priority queue's `Peek`
+  is that it returns *some* comparator-minimal element (`pickMin_admissible` shows that the
+  executable instance used by the correspondence check is one of them).
+
+Property text: "Under any sequence of allocations and releases from any peers, (S1) memory granted
+for queued response data never exceeds the configured total or per-peer limits, and (S2) reported
+totals always equal what was granted minus what was released (a release never takes a peer below
+zero). (S3) Releasing a peer returns all of its memory, and (S4) once everything is released
+nothing is reported allocated or pending."
 -/
 namespace GS.C13
 open GS.Alloc
 
-/-- `fits` is exactly the overflow-free `current + amount ≤ max`. -/
-theorem fits_iff (c a m : Nat) : fits c a m = true ↔ c + a ≤ m := by
-  unfold fits; simp; omega
+/-- `fits` (Go: `fits(current, amount, max)`) is exactly the overflow-free `current + amount ≤ max`. -/
+theorem fits_iff (c a m : Nat) : fits c a m = true ↔ c + a ≤ m := GS.Alloc.fits_iff c a m
+
+section
+variable {pick : Pick} (hp : Admissible pick) {mt mp : Nat} (ht : mt < W) (hm : mp < W)
+include hp ht hm
+
+/-- **(S1) limits.**  In every reachable state the global total is within `maxTotal` and every
+    peer's total is within `maxPeer` — both for the internal fields and for the public
+    observables `Stats().TotalAllocatedAllPeers` and `AllocatedForPeer(p)`. -/
+theorem limits {s : State} (h : Reachable pick mt mp s) :
+    s.total ≤ mt ∧ (∀ st ∈ s.peers, st.total ≤ mp) ∧
+    (stats s).totalAllocated ≤ mt ∧ (∀ p, allocatedFor s p ≤ mp) := by
+  obtain ⟨hi, hT, hP⟩ := h.inv hp ht hm
+  have h1 : s.total ≤ mt := hT ▸ hi.wf.limT
+  have h2 : ∀ st ∈ s.peers, st.total ≤ mp := fun st hst => hP ▸ hi.wf.limP st hst
+  refine ⟨h1, h2, h1, ?_⟩
+  intro p
+  unfold allocatedFor
+  cases hf : findPeer s.peers p with
+  | none => exact Nat.zero_le _
+  | some st => exact h2 st (findPeer_some hf).1
+
+/-- **(S2, first half) sum invariant.**  The global counter is exactly the sum of the per-peer
+    counters, peer entries are unique, and the reported total is the sum of `AllocatedForPeer`
+    over the peers that have an entry (all other peers report 0). -/
+theorem sum_invariant {s : State} (h : Reachable pick mt mp s) :
+    s.total = (s.peers.map (·.total)).sum ∧ (s.peers.map (·.id)).Nodup ∧
+    (stats s).totalAllocated = ((s.peers.map (·.id)).map (allocatedFor s)).sum ∧
+    (∀ p, p ∉ s.peers.map (·.id) → allocatedFor s p = 0) := by
+  obtain ⟨hi, _, _⟩ := h.inv hp ht hm
+  refine ⟨hi.wf.sum, hi.wf.nodup, ?_, ?_⟩
+  · show s.total = _
+    rw [hi.wf.sum, map_total_eq hi.wf]
+  · intro p hp'
+    unfold allocatedFor
+    cases hf : findPeer s.peers p with
+    | none => rfl
+    | some st =>
+      have := findPeer_some hf
+      exact absurd (List.mem_map.mpr ⟨st, this.1, this.2⟩) hp'
+
+/-- **No `uint64` addition ever wraps.**  Every `add64` of the model (there are four: two in
+    `alloc`, two in `loopStep`) is evaluated under the guard `fits current amount max` with
+    `max ∈ {maxTotal, maxPeer}`; in every reachable state and in every state inside the wake-up
+    loop such a guarded `add64` is the exact sum.  (`alloc_spec`, `loopStep_cases` then describe
+    the successor states with plain `+`; the `ledger` theorem below is the semantic consequence.) -/
+theorem no_wrap {s : State} (h : Reachable pick mt mp s ∨ LoopState pick mt mp s) (c a : Nat) :
+    (fits c a s.maxTotal = true → add64 c a = c + a) ∧
+    (fits c a s.maxPeer = true → add64 c a = c + a) := by
+  have hc : s.maxTotal = mt ∧ s.maxPeer = mp := by
+    rcases h with h | h
+    · exact (h.inv hp ht hm).2
+    · exact (h.wf hp ht hm).2
+  rw [hc.1, hc.2]
+  constructor
+  · intro hf; exact add64_eq_add (Nat.lt_of_le_of_lt ((GS.Alloc.fits_iff _ _ _).mp hf) ht)
+  · intro hf; exact add64_eq_add (Nat.lt_of_le_of_lt ((GS.Alloc.fits_iff _ _ _).mp hf) hm)
+
+/-- **No `uint64` addition ever wraps, as an equality of models.**  `allocPlain` / `loopStepPlain`
+    (GSProofs/Lemmas/AllocatorReach.lean) are verbatim copies of the only two model functions that
+    contain `add64`, with `add64` replaced by `+`.  In every reachable state and every state inside
+    the wake-up loop they coincide with the originals. -/
+theorem add64_is_plus {s : State} (h : Reachable pick mt mp s ∨ LoopState pick mt mp s) :
+    (∀ p a t, alloc s p a t = allocPlain s p a t) ∧ loopStep pick s = loopStepPlain pick s := by
+  have hc : s.maxTotal = mt ∧ s.maxPeer = mp := by
+    rcases h with h | h
+    · exact (h.inv hp ht hm).2
+    · exact (h.wf hp ht hm).2
+  exact ⟨fun p a t => alloc_eq_plain (hc.1 ▸ ht) (hc.2 ▸ hm) p a t,
+    loopStep_eq_plain (hc.1 ▸ ht) (hc.2 ▸ hm) pick⟩
+
+/-- **(S2) ledger / conservation, general form.**  Start in any reachable state `s`, run any
+    further history `ops`.  Replaying the emitted events of peer `p` on an exact natural-number
+    ledger that starts at `AllocatedForPeer(p)` — `granted p _ a` adds `a`, `released p a`
+    subtracts `a` and the replay *fails* if that would go below zero — succeeds (so **no release
+    ever takes a peer below zero**) and ends exactly at the new `AllocatedForPeer(p)`. -/
+theorem ledger_from {s : State} (h : Reachable pick mt mp s) (ops : List Op) (p : Nat) :
+    replayFrom p (allocatedFor s p) (run pick s ops).2 = some (allocatedFor (run pick s ops).1 p) :=
+  run_ledger hp (h.inv hp ht hm).1 ops p
+
+/-- **(S2) ledger / conservation over a whole history** (from `NewAllocator`, ledger starts at 0). -/
+theorem ledger (ops : List Op) (p : Nat) :
+    replayFrom p 0 (run pick (init mt mp) ops).2 = some (allocatedFor (run pick (init mt mp) ops).1 p) :=
+  run_ledger hp (Inv.init ht hm) ops p
+
+/-- **(S2) as sums:** reported = granted − released, with the released amounts being the clamped
+    amounts actually subtracted (see `release_clamped`). -/
+theorem ledger_sums (ops : List Op) (p : Nat) :
+    allocatedFor (run pick (init mt mp) ops).1 p + releasedSum p (run pick (init mt mp) ops).2
+      = grantedSum p (run pick (init mt mp) ops).2 := by
+  have := replayFrom_sums (ledger hp ht hm ops p)
+  omega
+
+/-- **(S2) the clamp.**  `ReleaseBlockMemory(p, a)` on a peer with an entry gives back exactly
+    `min a AllocatedForPeer(p)` (this is the amount carried by the `released` event), never more
+    than the peer holds; all other events of that step are grants made by the wake-up loop.
+    On a peer without entry it is an error and changes nothing. -/
+theorem release_clamped {s : State} (h : Reachable pick mt mp s) (p a : Nat) :
+    (findPeer s.peers p = none ∧ release pick s p a = (s, [Event.errNoPeer])) ∨
+    (∃ evs, (release pick s p a).2 = Event.released p (min a (allocatedFor s p)) :: evs ∧
+      min a (allocatedFor s p) ≤ allocatedFor s p ∧
+      ∀ e ∈ evs, ∃ q t b, e = Event.granted q t b) := by
+  obtain ⟨hi, _, _⟩ := h.inv hp ht hm
+  rcases release_spec pick hi.wf p a with h | ⟨st, s1, hf, hw1, hr, _⟩
+  · exact Or.inl h
+  · right
+    refine ⟨_, by rw [hr]; rfl, Nat.min_le_right _ _, processPending_events hp hw1⟩
+
+/-- **(S3) releasing a peer returns all of its memory.**  After `ReleasePeerMemory(p)`:
+    `AllocatedForPeer(p) = 0`, `p` has no entry and hence no pending allocation; if `p` had an
+    entry, the step gave back exactly `AllocatedForPeer(p)` (event `released`), every waiting
+    ticket of `p` got `failed` *in that step*, and nothing is granted to `p` in that step. -/
+theorem releasePeer_zero {s : State} (h : Reachable pick mt mp s) (p : Nat) :
+    allocatedFor (releasePeer pick s p).1 p = 0 ∧
+    pendingOf (releasePeer pick s p).1 p = [] ∧
+    findPeer (releasePeer pick s p).1.peers p = none ∧
+    (findPeer s.peers p ≠ none → Event.released p (allocatedFor s p) ∈ (releasePeer pick s p).2) ∧
+    (∀ pa ∈ pendingOf s p, Event.failed p pa.ticket ∈ (releasePeer pick s p).2) ∧
+    (∀ t a, Event.granted p t a ∉ (releasePeer pick s p).2) := by
+  obtain ⟨hi, _, _⟩ := h.inv hp ht hm
+  rcases releasePeer_spec pick hi.wf p with ⟨hf, hr⟩ | ⟨st, s1, hf, hw1, hr, _, _, hnone, _⟩
+  · rw [hr]
+    refine ⟨?_, ?_, hf, fun hne => absurd hf hne, ?_, ?_⟩
+    · unfold allocatedFor; rw [hf]
+    · unfold pendingOf; rw [hf]
+    · intro pa hpa; unfold pendingOf at hpa; rw [hf] at hpa; cases hpa
+    · intro t a hmem; simp at hmem
+  · have habs := processPending_absent hp hw1 hnone
+    rw [hr]
+    refine ⟨?_, ?_, habs.1, ?_, ?_, ?_⟩
+    · unfold allocatedFor; rw [habs.1]
+    · unfold pendingOf; rw [habs.1]
+    · intro _; simp [allocatedFor_eq]
+    · intro pa hpa
+      rw [pendingOf_eq] at hpa
+      apply List.mem_append_left
+      apply List.mem_cons_of_mem
+      exact List.mem_map.mpr ⟨pa, hpa, rfl⟩
+    · intro t a hmem
+      rcases List.mem_append.mp hmem with hm' | hm'
+      · rcases List.mem_cons.mp hm' with hm' | hm'
+        · cases hm'
+        · obtain ⟨pa, _, hpa⟩ := List.mem_map.mp hm'; cases hpa
+      · exact habs.2 t a hm'
+
+/-- **(S4) drained.**  In a reachable state, if every peer's allocation is 0 and nothing is
+    waiting — which is what "everything is released" means for the observables — then `Stats()`
+    reports nothing allocated and nothing pending. -/
+theorem drained {s : State} (h : Reachable pick mt mp s)
+    (hz : ∀ p, allocatedFor s p = 0) (hn : ∀ p, pendingOf s p = []) :
+    stats s = ⟨0, 0, 0⟩ := by
+  obtain ⟨hi, _, _⟩ := h.inv hp ht hm
+  have htot : s.total = 0 := by
+    rw [hi.wf.sum]
+    apply sum_eq_zero_of_forall
+    intro st hst
+    have := hz st.id
+    rw [allocatedFor_eq, totalIn_of_mem hi.wf.nodup hst] at this
+    exact this
+  have hpend : ∀ st ∈ s.peers, st.pending = [] := by
+    intro st hst
+    have := hn st.id
+    rw [pendingOf_eq, pendingIn_of_mem hi.wf.nodup hst] at this
+    exact this
+  have hfil : s.peers.filter (fun st => decide (peerPendingBytes st > 0)) = [] := by
+    apply List.filter_eq_nil_iff.mpr
+    intro st hst
+    simp [peerPendingBytes, hpend st hst]
+  unfold stats
+  simp only [hfil, htot]
+  rfl
+
+/-- **(S4), operational form: "once everything is released".**  From any reachable state, calling
+    `ReleasePeerMemory` for a list `L` of peers that covers every peer with an entry (in any order,
+    with repetitions or unknown peers allowed) leaves no entry at all, and `Stats()` reports
+    nothing allocated and nothing pending. -/
+theorem drained_after_releasing_all {s : State} (h : Reachable pick mt mp s) (L : List Nat)
+    (hL : ∀ st ∈ s.peers, st.id ∈ L) :
+    (run pick s (L.map Op.releasePeer)).1.peers = [] ∧
+    stats (run pick s (L.map Op.releasePeer)).1 = ⟨0, 0, 0⟩ := by
+  have key : ∀ (L : List Nat) (s : State), Reachable pick mt mp s →
+      (∀ q, q ∈ L ∨ findPeer s.peers q = none) →
+      (run pick s (L.map Op.releasePeer)).1.peers = [] := by
+    intro L
+    induction L with
+    | nil =>
+      intro s _ hq
+      exact peers_nil_of_all_absent (fun q => (hq q).resolve_left (by simp))
+    | cons p L ih =>
+      intro s hr hq
+      show (run pick (releasePeer pick s p).1 (L.map Op.releasePeer)).1.peers = []
+      apply ih _ (hr.next (Op.releasePeer p))
+      intro q
+      rcases hq q with hq | hq
+      · rcases List.mem_cons.mp hq with hq | hq
+        · exact Or.inr (releasePeer_absent hp (hr.inv hp ht hm).1.wf p q (Or.inl hq))
+        · exact Or.inl hq
+      · exact Or.inr (releasePeer_absent hp (hr.inv hp ht hm).1.wf p q (Or.inr hq))
+  have he := key L s h (by
+    intro q
+    cases hf : findPeer s.peers q with
+    | none => exact Or.inr rfl
+    | some st => have := findPeer_some hf; exact Or.inl (this.2 ▸ hL st this.1))
+  refine ⟨he, ?_⟩
+  apply drained hp ht hm (h.run _)
+  · intro p; simp [allocatedFor, he]
+  · intro p; simp [pendingOf, he]
+
+end
+
+/-! ## Documentation of the repaired defect (`known_findings.json`, class `uint64-overflow`)
+
+Before the `fix:` commit the admission test was `current + amount <= max` in `uint64` arithmetic.
+`admitsOld` is that old test.  The witness shows that it admitted an allocation of `2^64 - 1`
+bytes on top of 5 allocated bytes under a limit of 10 (the wrapped sum is 4), whereas the exact
+sum is far beyond the limit and the repaired test `fits` rejects it.  This is a *test of two
+concrete values* documenting the fixed defect, not a property theorem. -/
+
+/-- the pre-fix admission test (wrapping `uint64` addition) -/
+def admitsOld (current amount max : Nat) : Bool := decide (add64 current amount ≤ max)
+
+theorem overflow_defect_fixed_witness :
+    admitsOld 5 (2 ^ 64 - 1) 10 = true ∧ ¬ (5 + (2 ^ 64 - 1) ≤ 10) ∧ fits 5 (2 ^ 64 - 1) 10 = false := by
+  decide
+
+/-! ## Non-vacuity: concrete reachable states (tests, by evaluation) -/
+
+/-- history used in the examples: limits (6, 4); peers 0 and 1 each get 3 bytes, then each asks
+    for one more byte, which must wait because the total limit is reached. -/
+def exOps : List Op := [.alloc 0 3 100, .alloc 1 3 101, .alloc 0 1 102, .alloc 1 1 103]
+
+example : Reachable pickMin 6 4 (run pickMin (init 6 4) exOps).1 := ⟨exOps, rfl⟩
+
+-- the state is non-trivial: both peers hold memory and both have a waiting allocation
+example : (run pickMin (init 6 4) exOps).1.peers =
+    [⟨0, 3, [⟨1, 0, 102⟩]⟩, ⟨1, 3, [⟨1, 1, 103⟩]⟩] := by decide
+example : (run pickMin (init 6 4) exOps).1.total = 6 := by decide
+example : (run pickMin (init 6 4) exOps).2 = [.granted 0 100 3, .granted 1 101 3] := by decide
+
+-- a clamped release (peer 0 holds 3, releases 5): gives back 3, and both waiting tickets are woken
+example : (run pickMin (init 6 4) (exOps ++ [.release 0 5])).2 =
+    [.granted 0 100 3, .granted 1 101 3, .released 0 3, .granted 0 102 1, .granted 1 103 1] := by decide
+example : replayFrom 0 0 (run pickMin (init 6 4) (exOps ++ [.release 0 5])).2 = some 1 := by decide
+
+-- releasePeer with a waiting ticket: hypotheses of `releasePeer_zero` are met non-trivially
+example : (run pickMin (init 6 4) (exOps ++ [.releasePeer 0])).2 =
+    [.granted 0 100 3, .granted 1 101 3, .released 0 3, .failed 0 102, .granted 1 103 1] := by decide
+
+-- a drained state that still went through waiting allocations: hypotheses of `drained`
+example : stats (run pickMin (init 6 4) (exOps ++ [.releasePeer 0, .releasePeer 1])).1 = ⟨0, 0, 0⟩ := by
+  decide
+example : (run pickMin (init 6 4) (exOps ++ [.releasePeer 0, .releasePeer 1])).1.peers = [] := by decide
 
 end GS.C13
